@@ -219,9 +219,9 @@ Lemma case_history_safe ssz ops : adds_sized ssz ops -> run (case_history ssz op
 Proof. intro H. apply run_safe_iff. unfold case_history. apply h_run_ok; [exact H | constructor]. Qed.
 
 (* ---------- InitSurveillanceAreaGrid ---------- *)
-Lemma case_grid_safe nx ny n l : ldim l = 4 -> run (case_grid nx ny n l) = Safe.
+Lemma case_grid_safe nx ny n l : run (case_grid nx ny n l) = Safe.
 Proof.
-  intro Hd. apply run_safe_iff. unfold case_grid, p_grid, grid_ret. repeat step; finish.
+  apply run_safe_iff. unfold case_grid, p_grid, grid_ret. repeat step; finish.
 Qed.
 
 (* ---------- sigma points and the unscented transform: every layout ---------- *)
@@ -494,12 +494,6 @@ Proof.
 Qed.
 
 (* ---------- statements that are false of the code (open items) ---------- *)
-(* the grid initialiser writes x, 0, y, 0 into every state column whatever its size: the states of the
-   1-D and 3-D motion models have 2 and 6 rows *)
-Lemma grid_state_2d_refuted : run (case_grid 2 2 4 (Lay 2 0 false 0)) = Fails e_grid "col<<x,0,y,0".
-Proof. vm_compute. reflexivity. Qed.
-Lemma grid_state_6d_refuted : run (case_grid 1 3 3 (Lay 6 0 false 0)) = Fails e_grid "col<<x,0,y,0".
-Proof. vm_compute. reflexivity. Qed.
 (* an empty noise covariance gives block_size = 0 in the UVR density: input_size / 0 *)
 Lemma uvr_zero_block_size_refuted : run (case_uvr 2 1 2 2 3 3 2 0 0) = Fails e_uvr "input_size / block_size".
 Proof. vm_compute. reflexivity. Qed.
